@@ -6,6 +6,7 @@ One program `c<k>` = two modules `c<k>a`, `c<k>b` (all functions exported, cross
   r0             self recursion (depth <= 7), double argument carried through every level
   ma <-> mb      mutual recursion ACROSS the two modules; na <-> nb mutual recursion inside module a
                  through a `forward` declaration
+  lr + lt        computed goto: `jmpi` through a table of `lref` data items (label addresses)
   tab            data: `ref` items holding the public addresses of local and imported functions
   ap             indirect call through an address loaded from `tab`; whole table handed to C (exttab)
   cb             function address taken as an operand and passed to C (extcb), which calls it back twice
@@ -127,6 +128,20 @@ def ap_func(r, name, tab, n):
             f"  call ptab, exttab, t, tb, {n}, a1, x0", "  mul r, r, 31", "  xor r, r, t", "  ret r", "  endfunc"]
 
 
+def lref_func(r, name, tab):
+    """computed goto through a table of label addresses kept in `lref` data (filled by whichever engine
+    prepares the function: interpreter, generator, lazy generator, bb generator)"""
+    consts = [r.below(1000) for _ in range(4)]
+    L = [f"{name}: func {HHDR}", "  local i64:i, i64:t, i64:r, i64:tb", "  and i, a0, 3", f"  mov tb, {tab}",
+         "  mov t, p:(tb, i, 8)", "  jmpi t",
+         f"{name}_l0:", f"  add r, a1, {consts[0]}", f"  jmp {name}_end",
+         f"{name}_l1:", f"  mul r, a1, {3 + consts[1]}", f"  jmp {name}_end",
+         f"{name}_l2:", "  xor r, a1, a0", f"  add r, r, {consts[2]}", f"  jmp {name}_end",
+         f"{name}_l3:", "  sub r, a0, a1", f"{name}_end:", "  dlt t, x0, 1.0", "  add r, r, t", "  ret r", "  endfunc",
+         f"{tab}: lref {name}_l0", f"  lref {name}_l1", f"  lref {name}_l2", f"  lref {name}_l3"]
+    return L
+
+
 class C03Prog:
     def __init__(self, name, mods, entries, helpers_sig, wides, stats):
         self.name, self.mods, self.entries, self.hfuncs, self.wides, self.stats = name, mods, entries, helpers_sig, wides, stats
@@ -179,9 +194,13 @@ def gen_c03_program(rng, name, opts=None, many_doubles=False):
     A.forwards.append(nb)
     A.raw(rec_func(rng, na, nb, rng.choice(a_h), 3), na)
     A.raw(rec_func(rng, nb, na, rng.choice(a_h), 4), nb)
+    # label addresses in data, indirect jump
+    lr, lt = name + "a_lr", name + "a_lt"
+    A.forwards.append(lt)
+    A.raw(lref_func(rng, lr, lt), lr)
     # table of function addresses (local and imported), indirect calls
     tab = name + "a_tab"
-    cands = a_h + [r0, ma, na] + b_h + [mb]
+    cands = a_h + [r0, ma, na, lr] + b_h + [mb]
     ents = [rng.choice(cands) for _ in range(4)]
     for e in ents:
         if e.startswith(name + "b_"):
@@ -191,7 +210,7 @@ def gen_c03_program(rng, name, opts=None, many_doubles=False):
     A.raw(ap_func(rng, ap, tab, 4), ap)
     # callbacks through C
     cb = name + "b_cb"
-    cbt = rng.choice([r0, ma, a_h[0], mb, b_h[0], ap])
+    cbt = rng.choice([r0, ma, a_h[0], mb, b_h[0], ap, lr])
     if not cbt.startswith(name + "b_"):
         B.imports.add(cbt)
     B.raw(cb_func(rng, cb, cbt), cb)
@@ -200,7 +219,7 @@ def gen_c03_program(rng, name, opts=None, many_doubles=False):
     cw = name + "a_cw"
     A.imports.add(w)
     A.raw(cw_func(rng, cw, w), cw)
-    hs = a_h + b_h + [r0, ma, mb, na, ap, cb, cw]
+    hs = a_h + b_h + [r0, ma, mb, na, ap, cb, cw, lr]
     eo = dict(opts or {})
     if many_doubles:
         eo.update(ndbl=12)
@@ -216,7 +235,8 @@ def gen_c03_program(rng, name, opts=None, many_doubles=False):
     stats["ref_data_entries"] = 4
     stats["callback_funcs"] = 2
     stats["many_doubles"] = 1 if many_doubles else 0
-    return C03Prog(name, [A, B], [ea, eb], [r0, ma, mb, na, ap, cb, cw, a_h[0], b_h[0]], [w], stats)
+    stats["lref_tables"] = 1
+    return C03Prog(name, [A, B], [ea, eb], [r0, ma, mb, na, ap, cb, cw, lr, a_h[0], b_h[0]], [w], stats)
 
 
 HARGS = [(3, 5, 1.0), (7, 0xffffffffffffffff, -2.5), (0x123456789, 12, 1e300), (6, 1 << 40, 0.0)]
